@@ -3,7 +3,7 @@ CONSTANTS
   NArr = 3
   Sample <- SampleQuick
   Shipped = FALSE
-  MergeOps = {"update", "extend", "iadd", "add"}
+  MergeOps = {"update", "extend", "add"}
   Configs <- ConfigsUniform
   Positions = TRUE
 INVARIANT PerTreeListsAligned
@@ -12,5 +12,6 @@ INVARIANT NoMergeFailure
 INVARIANT PerTreeQueriesEnabled
 INVARIANT RootingKept
 INVARIANT NothingLost
+INVARIANT SettingsKept
 PROPERTY OperandsUnchanged
 CHECK_DEADLOCK FALSE
